@@ -1,17 +1,509 @@
 package main
 
-// Twin worlds: shadow executions on throw-away branches of the committed state.
-// (filled in by shadow checks; see shadow_checks.go)
+// Twin worlds: because one seed is one execution, relations between two executions are
+// exact. A shadow takes the committed state, branches it, optionally edits the branch
+// (remove dust, add dust, add or remove a pause entry, raise the limit, build the stack
+// without the orbiter middleware), runs the same packet through the transfer stack under
+// IBC core's own rule ("write the cached context only on a successful acknowledgement"),
+// and records acknowledgement, events, store digests and ledger deltas. Shadows never
+// replace the real delivery, which still goes through real IBC core in the next block.
+
+import (
+	"fmt"
+	"math/big"
+	"runtime/debug"
+	"sort"
+	"strings"
+
+	"cosmossdk.io/collections"
+	sdkmath "cosmossdk.io/math"
+	"github.com/circlefin/noble-fiattokenfactory/x/blockibc"
+	sdk "github.com/cosmos/cosmos-sdk/types"
+	bankkeeper "github.com/cosmos/cosmos-sdk/x/bank/keeper"
+	"github.com/cosmos/ibc-go/v8/modules/apps/transfer"
+	channeltypes "github.com/cosmos/ibc-go/v8/modules/core/04-channel/types"
+	porttypes "github.com/cosmos/ibc-go/v8/modules/core/05-port/types"
+
+	adaptertypes "github.com/noble-assets/orbiter/v2/types/component/adapter"
+	executortypes "github.com/noble-assets/orbiter/v2/types/component/executor"
+	forwardertypes "github.com/noble-assets/orbiter/v2/types/component/forwarder"
+)
 
 type shadowResult struct {
-	Variants map[string]*variantResult
+	V map[string]*variantResult
 }
 
 type variantResult struct {
-	Ack     []byte
-	Success bool
-	Panic   string
-	Events  string // digest
-	Stores  map[string]string
-	Deltas  []string
+	Name     string
+	Ack      []byte
+	Success  bool
+	Panic    string
+	Events   []string // rendered events, in order
+	Stores   map[string]string
+	Deltas   []string // ledger differences pre -> post (sorted)
+	OrbStore string   // digest of the orbiter store after
+	SetupErr string
 }
+
+func (s *Sim) stackFull() porttypes.IBCModule {
+	m, ok := s.N.App.IBCKeeper.Router.GetRoute("transfer")
+	if !ok {
+		panic(harnessErr("no transfer route"))
+	}
+	return m
+}
+
+// stackNoOrbiter: what simapp/ibc.go builds, minus the orbiter middleware.
+func (s *Sim) stackNoOrbiter() porttypes.IBCModule {
+	var st porttypes.IBCModule = transfer.NewIBCModule(s.N.App.TransferKeeper)
+	st = blockibc.NewIBCMiddleware(st, s.N.App.FTFKeeper)
+	return st
+}
+
+func renderEvents(evs sdk.Events) []string {
+	var out []string
+	for _, e := range evs {
+		var sb strings.Builder
+		sb.WriteString(e.Type)
+		for _, a := range e.Attributes {
+			sb.WriteString(" " + a.Key + "=" + a.Value)
+		}
+		out = append(out, sb.String())
+	}
+	return out
+}
+
+// setBalance edits the bank balance map on a branch (no send restriction can interfere).
+func (s *Sim) setBalance(ctx sdk.Context, addr sdk.AccAddress, denom string, amt sdkmath.Int) {
+	bk, ok := s.N.App.BankKeeper.(bankkeeper.BaseKeeper)
+	if !ok {
+		panic(harnessErr("bank keeper is not a BaseKeeper"))
+	}
+	if amt.IsZero() {
+		_ = bk.Balances.Remove(ctx, collections.Join(addr, denom))
+		return
+	}
+	if err := bk.Balances.Set(ctx, collections.Join(addr, denom), amt); err != nil {
+		panic(harnessErr("set balance: %v", err))
+	}
+}
+
+type shadowEdit func(ctx sdk.Context) error
+
+func (s *Sim) adminOnBranch(ctx sdk.Context, msg sdk.Msg) error {
+	h := s.N.App.MsgServiceRouter().Handler(msg)
+	if h == nil {
+		return fmt.Errorf("no handler for %T", msg)
+	}
+	_, err := h(ctx, msg)
+	return err
+}
+
+// runVariant executes cb on a branch of the committed state after applying edit.
+func (s *Sim) runVariant(name string, edit shadowEdit, withStores bool, cb func(ctx sdk.Context) (ack []byte, success bool)) *variantResult {
+	v := &variantResult{Name: name}
+	br := s.N.Branch()
+	if edit != nil {
+		if err := edit(br); err != nil {
+			v.SetupErr = err.Error()
+			return v
+		}
+	}
+	pre := s.N.LedgerAt(br)
+	cc, write := br.CacheContext()
+	cc = cc.WithEventManager(sdk.NewEventManager())
+	func() {
+		defer func() {
+			if r := recover(); r != nil {
+				v.Panic = fmt.Sprintf("%v", r)
+				if strings.Contains(v.Panic, "out of gas") {
+					v.Panic = "out of gas"
+				}
+				_ = debug.Stack
+			}
+		}()
+		v.Ack, v.Success = cb(cc)
+	}()
+	if v.Panic == "" && v.Success {
+		write()
+	}
+	v.Events = renderEvents(cc.EventManager().Events())
+	post := s.N.LedgerAt(br)
+	v.Deltas = pre.Diff(post)
+	v.OrbStore = digestStore(br.KVStore(s.N.App.GetKey("orbiter")))
+	if withStores {
+		v.Stores = s.N.StoreDigests(br)
+	}
+	return v
+}
+
+func (s *Sim) recvCB(stack porttypes.IBCModule, pkt channeltypes.Packet, rel sdk.AccAddress) func(ctx sdk.Context) ([]byte, bool) {
+	return func(ctx sdk.Context) ([]byte, bool) {
+		ack := stack.OnRecvPacket(ctx, pkt, rel)
+		if ack == nil {
+			return nil, true
+		}
+		return ack.Acknowledgement(), ack.Success()
+	}
+}
+
+func hasShadow(prof *Profile, name string) bool {
+	for _, x := range prof.Shadows {
+		if x == name {
+			return true
+		}
+	}
+	return false
+}
+
+// runShadows executes the variants the profile asks for, for one packet about to be delivered.
+func (s *Sim) runShadows(p *Pkt) *shadowResult {
+	if p.State != PktInFlight {
+		return nil
+	}
+	in := s.classify(p)
+	res := &shadowResult{V: map[string]*variantResult{}}
+	pkt := p.packet()
+	rel := s.Env.Relayers[0].Addr
+	full := s.stackFull()
+	prof := s.Prof
+	orb := s.Env.Orbiter
+	needStores := hasShadow(prof, "nomw")
+	res.V["base"] = s.runVariant("base", nil, needStores, s.recvCB(full, pkt, rel))
+	s.Stats.Count("shadow_executions")
+	if hasShadow(prof, "nomw") && !in.ToOrbiter {
+		res.V["nomw"] = s.runVariant("nomw", nil, true, s.recvCB(s.stackNoOrbiter(), pkt, rel))
+		s.Stats.Count("shadow_executions")
+	}
+	if !in.ToOrbiter {
+		return res
+	}
+	if hasShadow(prof, "nodust") {
+		res.V["nodust"] = s.runVariant("nodust", func(ctx sdk.Context) error {
+			for _, c := range s.N.App.BankKeeper.GetAllBalances(ctx, orb) {
+				s.setBalance(ctx, orb, c.Denom, sdkmath.ZeroInt())
+				sink := s.Env.Depositor.Addr
+				s.setBalance(ctx, sink, c.Denom, s.N.App.BankKeeper.GetBalance(ctx, sink, c.Denom).Amount.Add(c.Amount))
+			}
+			return nil
+		}, false, s.recvCB(full, pkt, rel))
+		s.Stats.Count("shadow_executions")
+	}
+	if hasShadow(prof, "moredust") {
+		res.V["moredust"] = s.runVariant("moredust", func(ctx sdk.Context) error {
+			// deterministic extra dust derived from the packet: the transferred denom and two others
+			k := int64(p.Seq%7) + 1
+			donor := s.Env.Noble[1].Addr
+			for i, d := range []string{in.Native, DenomStake, DenomOther, DenomUSDC} {
+				if d == "" {
+					continue
+				}
+				amt := sdkmath.NewInt(k * int64(13+i*1000))
+				have := s.N.App.BankKeeper.GetBalance(ctx, donor, d).Amount
+				if have.LT(amt) {
+					continue
+				}
+				s.setBalance(ctx, donor, d, have.Sub(amt))
+				s.setBalance(ctx, orb, d, s.N.App.BankKeeper.GetBalance(ctx, orb, d).Amount.Add(amt))
+			}
+			return nil
+		}, false, s.recvCB(full, pkt, rel))
+		s.Stats.Count("shadow_executions")
+	}
+	auth := s.Env.Authority.Addr.String()
+	if in.Canon && hasShadow(prof, "pausediff") {
+		pl := in.Payload
+		proto, cp := pl.Proto, pl.Counterparty()
+		// (a) relevant entries removed
+		res.V["unpaused"] = s.runVariant("unpaused", func(ctx sdk.Context) error {
+			if s.Model.PausedProto[proto] {
+				if err := s.adminOnBranch(ctx, &forwardertypes.MsgUnpauseProtocol{Signer: auth, ProtocolId: proto}); err != nil {
+					return err
+				}
+			}
+			if s.Model.PausedCC[proto+"|"+cp] {
+				if err := s.adminOnBranch(ctx, &forwardertypes.MsgUnpauseCrossChains{Signer: auth, ProtocolId: proto, CounterpartyIds: []string{cp}}); err != nil {
+					return err
+				}
+			}
+			return nil
+		}, false, s.recvCB(full, pkt, rel))
+		// (b) one unrelated entry added: another protocol, and another counterparty of the same protocol
+		res.V["extrapause"] = s.runVariant("extrapause", func(ctx sdk.Context) error {
+			for _, other := range []string{"PROTOCOL_CCTP", "PROTOCOL_HYPERLANE", "PROTOCOL_INTERNAL"} {
+				if other != proto && !s.Model.PausedProto[other] {
+					if err := s.adminOnBranch(ctx, &forwardertypes.MsgPauseProtocol{Signer: auth, ProtocolId: other}); err != nil {
+						return err
+					}
+					break
+				}
+			}
+			otherCP := "4000000001"
+			if proto == "PROTOCOL_INTERNAL" {
+				otherCP = "elsewhere"
+			}
+			if otherCP != cp && !s.Model.PausedCC[proto+"|"+otherCP] {
+				if err := s.adminOnBranch(ctx, &forwardertypes.MsgPauseCrossChains{Signer: auth, ProtocolId: proto, CounterpartyIds: []string{otherCP}}); err != nil {
+					return err
+				}
+			}
+			// the same counterparty string under another protocol must not matter either
+			for _, other := range []string{"PROTOCOL_CCTP", "PROTOCOL_HYPERLANE"} {
+				if other != proto && canonDomain(cp) && !s.Model.PausedCC[other+"|"+cp] {
+					if err := s.adminOnBranch(ctx, &forwardertypes.MsgPauseCrossChains{Signer: auth, ProtocolId: other, CounterpartyIds: []string{cp}}); err != nil {
+						return err
+					}
+				}
+			}
+			return nil
+		}, false, s.recvCB(full, pkt, rel))
+		s.Stats.Count("shadow_executions")
+		s.Stats.Count("shadow_executions")
+	}
+	if in.Canon && hasShadow(prof, "actiondiff") {
+		paused := s.Model.PausedAct["ACTION_FEE"]
+		res.V["actionflip"] = s.runVariant("actionflip", func(ctx sdk.Context) error {
+			if paused {
+				return s.adminOnBranch(ctx, &executortypes.MsgUnpauseAction{Signer: auth, ActionId: "ACTION_FEE"})
+			}
+			return s.adminOnBranch(ctx, &executortypes.MsgPauseAction{Signer: auth, ActionId: "ACTION_FEE"})
+		}, false, s.recvCB(full, pkt, rel))
+		s.Stats.Count("shadow_executions")
+	}
+	if in.Canon && hasShadow(prof, "limitup") {
+		res.V["limitup"] = s.runVariant("limitup", func(ctx sdk.Context) error {
+			return s.adminOnBranch(ctx, &adaptertypes.MsgUpdateParams{Signer: auth, Params: adaptertypes.Params{MaxPassthroughPayloadSize: 4294967295}})
+		}, false, s.recvCB(full, pkt, rel))
+		s.Stats.Count("shadow_executions")
+	}
+	return res
+}
+
+func sameStrs(a, b []string) bool {
+	if len(a) != len(b) {
+		return false
+	}
+	for i := range a {
+		if a[i] != b[i] {
+			return false
+		}
+	}
+	return true
+}
+
+func firstDiff(a, b []string) string {
+	n := len(a)
+	if len(b) < n {
+		n = len(b)
+	}
+	for i := 0; i < n; i++ {
+		if a[i] != b[i] {
+			return fmt.Sprintf("#%d: %.200q vs %.200q", i, a[i], b[i])
+		}
+	}
+	return fmt.Sprintf("lengths %d vs %d", len(a), len(b))
+}
+
+// deltasExcept filters ledger delta lines that concern the given account names.
+func deltasExcept(d []string, addrs ...string) []string {
+	var out []string
+	for _, l := range d {
+		skip := false
+		for _, a := range addrs {
+			if strings.HasPrefix(l, a+"/") {
+				skip = true
+			}
+		}
+		if !skip {
+			out = append(out, l)
+		}
+	}
+	return out
+}
+
+// relDeltas turns "addr/denom: a -> b" lines into "addr/denom: +d" (so that twins that start
+// from different absolute balances can be compared).
+func relDeltas(d []string) []string {
+	var out []string
+	for _, l := range d {
+		i := strings.Index(l, ": ")
+		j := strings.Index(l, " -> ")
+		if i < 0 || j < 0 {
+			out = append(out, l)
+			continue
+		}
+		a, ok1 := new(big.Int).SetString(l[i+2:j], 10)
+		b, ok2 := new(big.Int).SetString(l[j+4:], 10)
+		if !ok1 || !ok2 {
+			out = append(out, l)
+			continue
+		}
+		out = append(out, l[:i]+": "+signed(new(big.Int).Sub(b, a)))
+	}
+	sort.Strings(out)
+	return out
+}
+
+func bridgeEvents(evs []string) []string {
+	var out []string
+	for _, e := range evs {
+		if strings.HasPrefix(e, "circle.cctp.") || strings.HasPrefix(e, "hyperlane.") || strings.HasPrefix(e, "noble.orbiter.") {
+			out = append(out, e)
+		}
+	}
+	return out
+}
+
+// checkShadow compares the variants (called when the real delivery is observed).
+func (s *Sim) checkShadow(m *txMeta, p *Pkt, in *PktInfo, mo *MsgObs, ack AckInfo, sh *shadowResult) {
+	base := sh.V["base"]
+	if base == nil {
+		return
+	}
+	model := m.ModelAtShadow // the model as it was when the shadows ran (pre-block state)
+	if model == nil {
+		model = s.Model
+	}
+	for _, v := range sh.V {
+		if v.SetupErr != "" {
+			panic(harnessErr("shadow %s set-up failed for packet op=%d: %s", v.Name, p.Origin, v.SetupErr))
+		}
+		if v.Panic != "" {
+			s.violate("C14", "U1-no-panic", "shadow: "+oneLine(v.Panic), fmt.Sprintf("packet op=%d panicked in shadow variant %s: %.300s", p.Origin, v.Name, v.Panic))
+		}
+	}
+	orbS, dustS := s.Env.Orbiter.String(), s.Env.Dust.String()
+	// harness self-check: the real delivery of a packet that was alone and first in its block agrees with its shadow
+	if m.soleInBlock && !m.GasCut && base.Panic == "" && string(base.Ack) != string(ack.Bytes) {
+		panic(harnessErr("real delivery and base shadow disagree for packet op=%d:\n real:   %s\n shadow: %s", p.Origin, ack.Bytes, base.Ack))
+	}
+	// ---- C07: not addressed to the orbiter => exactly the wrapped application
+	if nm := sh.V["nomw"]; nm != nil && !in.ToOrbiter {
+		s.Stats.Count("rule:C07.differential")
+		cls := "ics20"
+		if !in.ICS {
+			cls = "non-ics20"
+		}
+		if string(nm.Ack) != string(base.Ack) || nm.Panic != base.Panic {
+			s.violate("C07", "same-as-without-middleware", "ack-differs class="+cls, fmt.Sprintf("packet op=%d receiver %q: with middleware %.200s / without %.200s", p.Origin, in.D.Receiver, base.Ack, nm.Ack))
+		}
+		if !sameStrs(nm.Events, base.Events) {
+			s.violate("C07", "same-as-without-middleware", "events-differ class="+cls, fmt.Sprintf("packet op=%d: %s", p.Origin, firstDiff(base.Events, nm.Events)))
+		}
+		for _, name := range sortedKeys(nm.Stores) {
+			if nm.Stores[name] != base.Stores[name] {
+				s.violate("C07", "same-as-without-middleware", "state-differs store="+name, fmt.Sprintf("packet op=%d: store %s %s (with) vs %s (without)", p.Origin, name, base.Stores[name], nm.Stores[name]))
+			}
+		}
+		if base.OrbStore != s.orbDigestNow() {
+			s.violate("C07", "orbiter-state-untouched", "orbiter-store-changed", fmt.Sprintf("packet op=%d", p.Origin))
+		}
+	}
+	if !in.ToOrbiter {
+		return
+	}
+	// ---- C11: independence from coins already on the orbiter account
+	for _, name := range []string{"nodust", "moredust"} {
+		v := sh.V[name]
+		if v == nil {
+			continue
+		}
+		s.Stats.Count("rule:C11.differential")
+		// an error acknowledgement's text may name whichever step failed first; what must not
+		// depend on the prior balance is success/refusal (and the bytes of a success)
+		if v.Success != base.Success || (v.Success && string(v.Ack) != string(base.Ack)) {
+			fp := "ack-differs variant=" + name
+			if s.EnvM.Blacklist[dustS] && in.Native == DenomUSDC {
+				fp += " env=dust-collector-blacklisted-by-token-issuer"
+			}
+			s.violate("C11", "independent-of-prior-balance", fp, fmt.Sprintf("packet op=%d: as is %.200s / %s %.200s", p.Origin, base.Ack, name, v.Ack))
+			continue
+		}
+		if !v.Success {
+			continue
+		}
+		a := relDeltas(deltasExcept(base.Deltas, orbS, dustS))
+		b := relDeltas(deltasExcept(v.Deltas, orbS, dustS))
+		if !sameStrs(a, b) {
+			s.violate("C11", "independent-of-prior-balance", "deltas-differ variant="+name, fmt.Sprintf("packet op=%d: %s", p.Origin, firstDiff(a, b)))
+		}
+		if !sameStrs(bridgeEvents(base.Events), bridgeEvents(v.Events)) {
+			s.violate("C11", "independent-of-prior-balance", "bridge-request-differs variant="+name, fmt.Sprintf("packet op=%d: %s", p.Origin, firstDiff(bridgeEvents(base.Events), bridgeEvents(v.Events))))
+		}
+		if base.OrbStore != v.OrbStore {
+			s.violate("C11", "independent-of-prior-balance", "statistics-differ variant="+name, fmt.Sprintf("packet op=%d", p.Origin))
+		}
+		// after a success the orbiter account keeps only what it held in *other* denoms
+		if v.Success && name == "moredust" {
+			s.Stats.Probe("shadow_with_extra_dust_succeeded")
+		}
+	}
+	if !in.Canon {
+		return
+	}
+	pl := in.Payload
+	// ---- C08: others unaffected / enforcement decided by the twin
+	if v := sh.V["extrapause"]; v != nil {
+		s.Stats.Count("rule:C08.unrelated-pause")
+		if string(v.Ack) != string(base.Ack) || !sameStrs(relDeltas(v.Deltas), relDeltas(base.Deltas)) {
+			s.violate("C08", "others-unaffected", "unrelated-pause-changed-outcome route="+pl.Proto, fmt.Sprintf("packet op=%d to %s/%s: as is %.160s / with unrelated pause entries %.160s", p.Origin, pl.Proto, pl.Counterparty(), base.Ack, v.Ack))
+		}
+	}
+	if v := sh.V["unpaused"]; v != nil {
+		s.Stats.Count("rule:C08.twin-unpaused")
+		paused := model.IsPaused(pl.Proto, pl.Counterparty())
+		if paused && base.Success {
+			s.violate("C08", "enforcement", "accepted-while-destination-paused (shadow)", fmt.Sprintf("packet op=%d to %s/%s", p.Origin, pl.Proto, pl.Counterparty()))
+		}
+		if !paused && (string(v.Ack) != string(base.Ack)) {
+			panic(harnessErr("unpaused twin differs although nothing was removed (packet op=%d)", p.Origin))
+		}
+		if paused && !base.Success && v.Success {
+			s.Stats.Probe("pause_was_the_only_reason_for_refusal")
+		}
+	}
+	// ---- C09
+	if v := sh.V["actionflip"]; v != nil {
+		s.Stats.Count("rule:C09.twin")
+		paused := model.PausedAct["ACTION_FEE"]
+		if !pl.HasFee {
+			if string(v.Ack) != string(base.Ack) || !sameStrs(relDeltas(v.Deltas), relDeltas(base.Deltas)) || v.OrbStore == "" {
+				s.violate("C09", "payloads-without-action-unaffected", "fee-pause-changed-feeless-transfer", fmt.Sprintf("packet op=%d: as is %.160s / flipped %.160s", p.Origin, base.Ack, v.Ack))
+			}
+		} else {
+			pausedRun, other := base, v
+			if !paused {
+				pausedRun, other = v, base
+			}
+			if pausedRun.Success {
+				s.violate("C09", "enforcement", "accepted-while-action-paused (shadow)", fmt.Sprintf("packet op=%d", p.Origin))
+			}
+			if len(pausedRun.Deltas) > 0 {
+				s.violate("C09", "enforcement", "paused-action-had-effects", fmt.Sprintf("packet op=%d: %v", p.Origin, pausedRun.Deltas))
+			}
+			_ = other
+		}
+	}
+	// ---- C18: refused here and accepted with the limit raised => the limit was the reason => must be over
+	if v := sh.V["limitup"]; v != nil {
+		s.Stats.Count("rule:C18.twin")
+		over := uint64(len(pl.Passthrough)) > model.Limit
+		if !base.Success && v.Success && !over {
+			s.violate("C18", "within-limit-never-refused-for-size", "refused-only-because-of-limit", fmt.Sprintf("packet op=%d: passthrough %d bytes, limit %d: refused as is (%.200s) but accepted with the limit raised", p.Origin, len(pl.Passthrough), model.Limit, base.Ack))
+		}
+		if over && base.Success {
+			s.violate("C18", "enforcement", "accepted-while-passthrough-over-limit (shadow)", fmt.Sprintf("packet op=%d: %d > %d", p.Origin, len(pl.Passthrough), model.Limit))
+		}
+		if over && !base.Success && len(base.Deltas) > 0 {
+			s.violate("C18", "enforcement", "refused-with-effects", fmt.Sprintf("packet op=%d", p.Origin))
+		}
+		if over && !base.Success && v.Success {
+			s.Stats.Probe("limit_was_the_only_reason_for_refusal")
+		}
+		if !over && base.Success != v.Success {
+			s.Stats.Probe("limit_twin_differs_within_limit")
+		}
+	}
+}
+
+func (s *Sim) orbDigestNow() string { return s.orbDigest }
